@@ -14,6 +14,7 @@ int cmd_attack_table(const Args&);
 int cmd_kpk_table(const Args&);
 int cmd_hashtable_replay(const Args&);
 int cmd_order_replay(const Args&);
+int cmd_nearmate_pool(const Args&);
 int cmd_polyglot_replay(const Args&);
 int cmd_polyglot_walk(const Args&);
 int cmd_book_replay(const Args&);
@@ -51,6 +52,7 @@ int main(int argc, char** argv)
     if (cmd == "kpk-table") return vh::cmd_kpk_table(a);
     if (cmd == "hashtable-replay") return vh::cmd_hashtable_replay(a);
     if (cmd == "order-replay") return vh::cmd_order_replay(a);
+    if (cmd == "nearmate-pool") return vh::cmd_nearmate_pool(a);
     if (cmd == "polyglot-replay") return vh::cmd_polyglot_replay(a);
     if (cmd == "polyglot-walk") return vh::cmd_polyglot_walk(a);
     if (cmd == "book-replay") return vh::cmd_book_replay(a);
